@@ -3,6 +3,8 @@ package main
 import (
 	"encoding/json"
 	"fmt"
+	"os"
+	"path/filepath"
 	"reflect"
 	"strings"
 	"unicode/utf8"
@@ -15,7 +17,7 @@ func init() {
 	register(&Check{
 		ID:     "C17",
 		Level:  "exploration",
-		Rule:   "28 programs (find and replace, no / flat / nested variables from named loops, zero matches, skip windows, two commands, replacement text with per-cent signs) x every text of <= 4 symbols (thorough: also every text of 5 symbols over a 7-symbol subset) over {a, \", \\, newline, 0x01, e-acute (2 bytes), 0xff, tab, %, colon, comma, U+1F600 (4 bytes, outside the BMP)}, plus three programs on every list length 0..1100 (thorough 4200) matches: Json() and FormattedJson() must return, be valid JSON, decode to equal documents with one object per match whose filename, matchNumber, offset, line, column, value, variables (recursively) equal the in-memory match and whose replacement key is present exactly for replace commands; strings are compared exactly when valid UTF-8 and after U+FFFD substitution otherwise; non-trivial = distinct (program,text) pairs with at least one match",
+		Rule:   "28 programs (find and replace, no / flat / nested variables from named loops, zero matches, skip windows, two commands, replacement text with per-cent signs) x every text of <= 4 symbols (thorough: also every text of 5 symbols over a 7-symbol subset) over {a, \", \\, newline, 0x01, e-acute (2 bytes), 0xff, tab, %, colon, comma, U+1F600 (4 bytes, outside the BMP)}, plus four programs run with RunFiles on files whose names hold backslashes, quotes, blanks, control characters, per-cent signs, invalid UTF-8 and non-BMP characters, plus three programs on every list length 0..1100 (thorough 4200) matches: Json() and FormattedJson() must return, be valid JSON, decode to equal documents with one object per match whose filename, matchNumber, offset, line, column, value, variables (recursively) equal the in-memory match and whose replacement key is present exactly for replace commands; strings are compared exactly when valid UTF-8 and after U+FFFD substitution otherwise; non-trivial = distinct (program,text) pairs with at least one match",
 		Assume: []string{"encoding/json is the arbiter of validity and decoding"},
 		Budget: map[string]int{"quick": 120, "thorough": 900},
 		Run:    runC17,
@@ -182,6 +184,37 @@ func runC17(c *Ctx) {
 			c17Eval(c, prog, v, t)
 		}
 	}
+	// file names: the filename member carries the name as it is, whatever characters it is made of
+	if c.Level("file names") {
+		dir, err := os.MkdirTemp("", "vmc-c17-")
+		if err == nil {
+			defer os.RemoveAll(dir)
+			var paths []string
+			for _, n := range []string{"plain.txt", "back\\slash.txt", "quo\"te.txt", "\xc3\xa9.txt", "a b.txt", "%d%s.txt", "tab\tx", "new\nline", "\xff\xfe.txt", "colon:comma,.txt", "\U0001F600.txt", "<&>.txt"} {
+				p := filepath.Join(dir, n)
+				if os.WriteFile(p, []byte("ab a\n"+n), 0o644) == nil {
+					paths = append(paths, p)
+				}
+			}
+			for _, prog := range []string{"find all 'a'", "replace all 'a' with 'b'", "find all (any = x) 'b'", "find all 'zzz'"} {
+				prog := prog
+				if !c.Unit(func() string { return prog + " on files with unusual names" }) {
+					continue
+				}
+				v, err, pi := compileSafe(prog)
+				if err != nil || pi != nil {
+					continue
+				}
+				for _, sel := range [][]string{paths, paths[:1], paths[1:3], {dir}} {
+					var ms engine.Matches
+					if pi := guard(func() { ms = v.RunFiles(sel, engine.NOTHING, false) }); pi != nil {
+						continue // C09
+					}
+					c17Render(c, prog, fmt.Sprintf("files %d", len(sel)), ms)
+				}
+			}
+		}
+	}
 	// long result lists: every length 0..N (the renderings must carry every match, whatever the list length)
 	if c.Level("long lists") {
 		for _, prog := range []string{"find all any", "replace all 'a' with 'b'", "find all ('a' = x)"} {
@@ -204,13 +237,18 @@ func runC17(c *Ctx) {
 }
 
 func c17Eval(c *Ctx, prog string, v *libvore.Vore, t string) {
+	ms, pi := runSafe(v, t)
+	if pi != nil {
+		return // C09
+	}
+	c17Render(c, prog, t, ms)
+}
+
+// c17Render checks both renderings of one result list against the in-memory matches.
+func c17Render(c *Ctx, prog string, t string, ms engine.Matches) {
 	{
 		{
 			c.Eval(1)
-			ms, pi := runSafe(v, t)
-			if pi != nil {
-				return // C09
-			}
 			if len(ms) > 0 {
 				c.Nontrivial(1)
 			}
